@@ -409,6 +409,10 @@ func (p *Polygon) initEdgesAndIndex() {
 	p.numEdges = 0
 	p.cumulativeEdges = nil
 	if p.IsFull() {
+		// The full polygon has no edges, but it still needs its index:
+		// every query method goes through it.
+		p.index = NewShapeIndex()
+		p.index.Add(p)
 		return
 	}
 	const maxLinearSearchLoops = 12 // Based on benchmarks.
